@@ -10,6 +10,7 @@ import (
 	"strings"
 	"testing"
 	"testing/synctest"
+	"time"
 )
 
 // Action is one decision of the simulator: a delivery, a timeout release, a
@@ -188,9 +189,18 @@ func ReadJSON(path string, v interface{}) error {
 // keeps reporting the failure. budget bounds the number of test executions.
 func DDMin(actions []Action, budget int, test func([]Action) bool) ([]Action, int) {
 	used := 0
+	deadline := time.Now().Add(time.Duration(EnvInt("VERIF_DDMIN_SECONDS", 90)) * time.Second)
+	inner := test
+	test = func(c []Action) bool {
+		if time.Now().After(deadline) {
+			return false
+		}
+		fmt.Fprintf(os.Stderr, "ddmin candidate %d len %d\n", used, len(c))
+		return inner(c)
+	}
 	cur := append([]Action(nil), actions...)
 	n := 2
-	for len(cur) >= 2 && used < budget {
+	for len(cur) >= 2 && used < budget && time.Now().Before(deadline) {
 		chunk := (len(cur) + n - 1) / n
 		reduced := false
 		for start := 0; start < len(cur) && used < budget; start += chunk {
